@@ -409,7 +409,7 @@ func ruleURLJoin(c *Ctx) {
 			if base == nil {
 				return false, false
 			}
-			if f, _, ok := fieldLoad(base); !ok || f.Name() != "URL" {
+			if f, _, ok := fieldLoad(base); !ok || theProgram.baseFieldName(f) != "URL" {
 				return false, false
 			}
 			return true, bo.Op == token.EQL
@@ -428,7 +428,7 @@ func ruleURLJoin(c *Ctx) {
 			if !ok || calleeName(&lc.Call) != "builtin.len" {
 				return
 			}
-			if f, _, ok := fieldLoad(lc.Call.Args[0]); !ok || f.Name() != "Pattern" {
+			if f, _, ok := fieldLoad(lc.Call.Args[0]); !ok || theProgram.baseFieldName(f) != "Pattern" {
 				return
 			}
 			edge := 0
